@@ -52,15 +52,15 @@ structure TEB where
   exprs : List TExpr := []
 deriving Repr
 
-abbrev TM := StateT TEB (Except String)
+/-- results of builder operations: a value and the new builder state, or an error class -/
+abbrev TR (α : Type) := Except String (α × TEB)
 
-def getArg (typeName : Bytes) : TM ArgInfo := do
-  let st ← get
+/-- `getArg`: look the sample up by name and mark it used -/
+def getArg (st : TEB) (typeName : Bytes) : TR ArgInfo :=
   match st.argInfos.find? (fun p => p.1 == typeName) with
-  | none => throw "type-missing"
+  | none => .error "type-missing"
   | some (_, a) =>
-    set { st with argUsed := if st.argUsed.contains typeName then st.argUsed else typeName :: st.argUsed }
-    pure a
+    .ok (a, { st with argUsed := if st.argUsed.contains typeName then st.argUsed else typeName :: st.argUsed })
 
 /-- `ArgInfo.GetMember` -/
 def ArgInfo.getMember (a : ArgInfo) (member : Bytes) : Except String Loc :=
@@ -87,34 +87,61 @@ def ArgInfo.getSlice (a : ArgInfo) : Except String Loc :=
   | .struct .. => .error "slice-syntax-on-struct"
   | .map .. => .error "slice-syntax-on-map"
 
-def liftE {α} (e : Except String α) : TM α := match e with | .ok a => pure a | .error s => throw s
+/-- `InputMember` -/
+def inputMember (st : TEB) (ty member : Bytes) : TR Loc :=
+  match getArg st ty with
+  | .error e => .error e
+  | .ok (a, st) =>
+    match a.getMember member with
+    | .error e => .error e
+    | .ok l => .ok (l, st)
 
-def inputMember (ty member : Bytes) : TM Loc := do
-  let a ← getArg ty
-  liftE (a.getMember member)
+/-- the `outputUsed` check-and-mark of OutputMember / AllStructOutputs -/
+def markOutput (st : TEB) (l : Loc) : Except String TEB :=
+  if st.outputUsed.contains l.ident then .error "output-used-twice"
+  else .ok { st with outputUsed := l.ident :: st.outputUsed }
 
-def markOutput (l : Loc) : TM Unit := do
-  let st ← get
-  if st.outputUsed.contains l.ident then throw "output-used-twice"
-  set { st with outputUsed := l.ident :: st.outputUsed }
+/-- `OutputMember` -/
+def outputMember (st : TEB) (ty member : Bytes) : TR Loc :=
+  match getArg st ty with
+  | .error e => .error e
+  | .ok (a, st) =>
+    match a.getMember member with
+    | .error e => .error e
+    | .ok l =>
+      match markOutput st l with
+      | .error e => .error e
+      | .ok st => .ok (l, st)
 
-def outputMember (ty member : Bytes) : TM Loc := do
-  let a ← getArg ty
-  let l ← liftE (a.getMember member)
-  markOutput l
-  pure l
+/-- `AllStructInputs` -/
+def allStructInputs (st : TEB) (ty : Bytes) : TR (List (Loc × Bytes)) :=
+  match getArg st ty with
+  | .error e => .error e
+  | .ok (a, st) =>
+    match a.getAll with
+    | .error e => .error e
+    | .ok ms => .ok (ms, st)
 
-def allStructInputs (ty : Bytes) : TM (List (Loc × Bytes)) := do
-  let a ← getArg ty
-  liftE a.getAll
+def markOutputs : TEB → List (Loc × Bytes) → Except String TEB
+  | st, [] => .ok st
+  | st, (l, _) :: rest =>
+    match markOutput st l with
+    | .error e => .error e
+    | .ok st => markOutputs st rest
 
-def allStructOutputs (ty : Bytes) : TM (List (Loc × Bytes)) := do
-  let a ← getArg ty
-  let ms ← liftE a.getAll
-  for (l, _) in ms do markOutput l
-  pure ms
+/-- `AllStructOutputs` -/
+def allStructOutputs (st : TEB) (ty : Bytes) : TR (List (Loc × Bytes)) :=
+  match getArg st ty with
+  | .error e => .error e
+  | .ok (a, st) =>
+    match a.getAll with
+    | .error e => .error e
+    | .ok ms =>
+      match markOutputs st ms with
+      | .error e => .error e
+      | .ok st => .ok (ms, st)
 
-def addExpr (e : TExpr) : TM Unit := modify fun st => { st with exprs := st.exprs ++ [e] }
+def TEB.add (st : TEB) (e : TExpr) : TEB := { st with exprs := st.exprs ++ [e] }
 
 /-- `basicColumn.String()` / `sqlFunctionCall.String()` -/
 def Col.str (c : Col) : Bytes := if c.func || c.table.size == 0 then c.column else c.table ++ dot ++ c.column
@@ -133,108 +160,170 @@ def provAssign (m : List (Bytes × List Loc)) (k : Bytes) (l : Loc) : List (Byte
 def provAppend (m : List (Bytes × List Loc)) (k : Bytes) (l : Loc) : List (Bytes × List Loc) :=
   if m.any (·.1 == k) then m.map (fun p => if p.1 == k then (k, p.2 ++ [l]) else p) else m ++ [(k, [l])]
 
-def bindSeg (s : OSeg) : TM Unit :=
+/-- the source loop of `asteriskInsertExpr.bindTypes` -/
+def astInsertCols : TEB → List Acc → List TCol → TR (List TCol)
+  | st, [], cols => .ok (cols, st)
+  | st, src :: rest, cols =>
+    if src.member == star then
+      match allStructInputs st src.ty with
+      | .error e => .error e
+      | .ok (ms, st) => astInsertCols st rest (cols ++ ms.map (fun (l, tag) => TCol.insert l tag false))
+    else
+      match inputMember st src.ty src.member with
+      | .error e => .error e
+      | .ok (l, st) => astInsertCols st rest (cols ++ [TCol.insert l src.member true])
+
+/-- step 1 of `columnsInsertExpr.bindTypes`: providers and the asterisk map -/
+def colInsertProviders : TEB → List Acc → List (Bytes × List Loc) → Option Bytes →
+    TR (List (Bytes × List Loc) × Option Bytes)
+  | st, [], prov, remaining => .ok ((prov, remaining), st)
+  | st, src :: rest, prov, remaining =>
+    if src.member == star then
+      match getArg st src.ty with          -- repaired `Kind`: marks the sample used
+      | .error e => .error e
+      | .ok (.map .., st) =>
+        if remaining.isSome then .error "more-than-one-asterisk-map"
+        else colInsertProviders st rest prov (some src.ty)
+      | .ok (_, st) =>
+        match allStructInputs st src.ty with
+        | .error e => .error e
+        | .ok (ms, st) =>
+          colInsertProviders st rest (ms.foldl (fun pr (l, tag) => provAppend pr tag l) prov) remaining
+    else
+      match inputMember st src.ty src.member with
+      | .error e => .error e
+      | .ok (l, st) => colInsertProviders st rest (provAssign prov src.member l) remaining
+
+/-- step 2 of `columnsInsertExpr.bindTypes`: the listed columns -/
+def colInsertCols (prov : List (Bytes × List Loc)) (remaining : Option Bytes) :
+    TEB → List Col → List TCol → TR (List TCol)
+  | st, [], cols => .ok (cols, st)
+  | st, c :: rest, cols =>
+    let cs := c.str
+    match prov.find? (·.1 == cs), remaining with
+    | some (_, [l]), _ => colInsertCols prov remaining st rest (cols ++ [TCol.insert l cs true])
+    | some (_, _), _ => .error "more-than-one-provider"
+    | none, some m =>
+      match inputMember st m cs with
+      | .error e => .error e
+      | .ok (l, st) => colInsertCols prov remaining st rest (cols ++ [TCol.insert l cs true])
+    | none, none => .error "missing-provider"
+
+/-- the pair loop of `basicInsertExpr.bindTypes` -/
+def basicInsertCols : TEB → List (Col × Val) → List TCol → TR (List TCol)
+  | st, [], cols => .ok (cols, st)
+  | st, (c, v) :: rest, cols =>
+    match v with
+    | .lit t => basicInsertCols st rest (cols ++ [TCol.literal c.column t])
+    | .acc a =>
+      match inputMember st a.ty a.member with
+      | .error e => .error e
+      | .ok (l, st) => basicInsertCols st rest (cols ++ [TCol.insert l c.column true])
+
+/-- case 1 of `outputExpr.bindTypes`: generated columns -/
+def outGenerated (pref : Bytes) : TEB → List Acc → List (Bytes × Loc) → TR (List (Bytes × Loc))
+  | st, [], ocs => .ok (ocs, st)
+  | st, t :: rest, ocs =>
+    if t.member == star then
+      match allStructOutputs st t.ty with
+      | .error e => .error e
+      | .ok (ms, st) => outGenerated pref st rest (ocs ++ ms.map (fun (l, tag) => newOutputColumn pref tag l))
+    else
+      match outputMember st t.ty t.member with
+      | .error e => .error e
+      | .ok (l, st) => outGenerated pref st rest (ocs ++ [newOutputColumn pref t.member l])
+
+/-- case 2: explicit columns into one asterisk type -/
+def outIntoStar (ty : Bytes) : TEB → List Col → List (Bytes × Loc) → TR (List (Bytes × Loc))
+  | st, [], ocs => .ok (ocs, st)
+  | st, c :: rest, ocs =>
+    match outputMember st ty c.column with
+    | .error e => .error e
+    | .ok (l, st) => outIntoStar ty st rest (ocs ++ [newOutputColumn c.tableName c.column l])
+
+/-- case 3: columns and types pairwise -/
+def outPairwise : TEB → List (Col × Acc) → List (Bytes × Loc) → TR (List (Bytes × Loc))
+  | st, [], ocs => .ok (ocs, st)
+  | st, (c, t) :: rest, ocs =>
+    match outputMember st t.ty t.member with
+    | .error e => .error e
+    | .ok (l, st) => outPairwise st rest (ocs ++ [newOutputColumn c.tableName c.column l])
+
+/-- `expression.bindTypes` for every node kind -/
+def bindSeg (st : TEB) (s : OSeg) : Except String TEB :=
   match s.kind with
-  | .bypass => addExpr (.bypass s.raw)
-  | .member => do
-    match s.types with
-    | [a] => let l ← inputMember a.ty a.member; addExpr (.input l)
-    | _ => throw "malformed-ast"
-  | .slice => do
+  | .bypass => .ok (st.add (.bypass s.raw))
+  | .member =>
     match s.types with
     | [a] =>
-      let ai ← getArg a.ty
-      let l ← liftE ai.getSlice
-      addExpr (.input l)
-    | _ => throw "malformed-ast"
-  | .astInsert => do
-    let mut cols : List TCol := []
-    for src in s.types do
-      if src.member == star then
-        let ms ← allStructInputs src.ty
-        cols := cols ++ ms.map (fun (l, tag) => TCol.insert l tag false)
-      else
-        let l ← inputMember src.ty src.member
-        cols := cols ++ [TCol.insert l src.member true]
-    addExpr (.insert cols)
-  | .colInsert => do
-    let mut prov : List (Bytes × List Loc) := []
-    let mut remaining : Option Bytes := none
-    for src in s.types do
-      if src.member == star then
-        let ai ← getArg src.ty           -- repaired `Kind`: marks the sample used
-        match ai with
-        | .map .. =>
-          if remaining.isSome then throw "more-than-one-asterisk-map"
-          remaining := some src.ty
-        | _ =>
-          let ms ← allStructInputs src.ty
-          for (l, tag) in ms do prov := provAppend prov tag l
-      else
-        let l ← inputMember src.ty src.member
-        prov := provAssign prov src.member l
-    let mut cols : List TCol := []
-    for c in s.cols do
-      let cs := c.str
-      match prov.find? (·.1 == cs), remaining with
-      | some (_, [l]), _ => cols := cols ++ [TCol.insert l cs true]
-      | some (_, _), _ => throw "more-than-one-provider"
-      | none, some m =>
-        let l ← inputMember m cs
-        cols := cols ++ [TCol.insert l cs true]
-      | none, none => throw "missing-provider"
-    addExpr (.insert cols)
-  | .basicInsert => do
-    if s.cols.length != s.vals.length then throw "mismatched-columns-values"
-    let mut cols : List TCol := []
-    for (c, v) in s.cols.zip s.vals do
-      match v with
-      | .lit t => cols := cols ++ [TCol.literal c.column t]
-      | .acc a =>
-        let l ← inputMember a.ty a.member
-        cols := cols ++ [TCol.insert l c.column true]
-    addExpr (.insert cols)
-  | .output => do
+      match inputMember st a.ty a.member with
+      | .error e => .error e
+      | .ok (l, st) => .ok (st.add (.input l))
+    | _ => .error "malformed-ast"
+  | .slice =>
+    match s.types with
+    | [a] =>
+      match getArg st a.ty with
+      | .error e => .error e
+      | .ok (ai, st) =>
+        match ai.getSlice with
+        | .error e => .error e
+        | .ok l => .ok (st.add (.input l))
+    | _ => .error "malformed-ast"
+  | .astInsert =>
+    match astInsertCols st s.types [] with
+    | .error e => .error e
+    | .ok (cols, st) => .ok (st.add (.insert cols))
+  | .colInsert =>
+    match colInsertProviders st s.types [] none with
+    | .error e => .error e
+    | .ok ((prov, remaining), st) =>
+      match colInsertCols prov remaining st s.cols [] with
+      | .error e => .error e
+      | .ok (cols, st) => .ok (st.add (.insert cols))
+  | .basicInsert =>
+    if s.cols.length != s.vals.length then .error "mismatched-columns-values" else
+    match basicInsertCols st (s.cols.zip s.vals) [] with
+    | .error e => .error e
+    | .ok (cols, st) => .ok (st.add (.insert cols))
+  | .output =>
     let numTypes := s.types.length
     let numColumns := s.cols.length
     let starTypes := starCountTypes s.types
     let starColumns := starCountCols s.cols
     if numColumns == 0 || (numColumns == 1 && starColumns == 1) then
       let pref := match s.cols with | c :: _ => c.tableName | [] => #[]
-      let mut ocs : List (Bytes × Loc) := []
-      for t in s.types do
-        if t.member == star then
-          let ms ← allStructOutputs t.ty
-          ocs := ocs ++ ms.map (fun (l, tag) => newOutputColumn pref tag l)
-        else
-          let l ← outputMember t.ty t.member
-          ocs := ocs ++ [newOutputColumn pref t.member l]
-      addExpr (.output ocs)
-    else if numColumns > 1 && starColumns > 0 then throw "invalid-asterisk-in-columns"
+      match outGenerated pref st s.types [] with
+      | .error e => .error e
+      | .ok (ocs, st) => .ok (st.add (.output ocs))
+    else if numColumns > 1 && starColumns > 0 then .error "invalid-asterisk-in-columns"
     else if starTypes == 1 && numTypes == 1 then
-      let mut ocs : List (Bytes × Loc) := []
-      let ty := (s.types.headD default).ty
-      for c in s.cols do
-        let l ← outputMember ty c.column
-        ocs := ocs ++ [newOutputColumn c.tableName c.column l]
-      addExpr (.output ocs)
-    else if starTypes > 0 && numTypes > 1 then throw "invalid-asterisk-in-types"
+      match outIntoStar (s.types.headD default).ty st s.cols [] with
+      | .error e => .error e
+      | .ok (ocs, st) => .ok (st.add (.output ocs))
+    else if starTypes > 0 && numTypes > 1 then .error "invalid-asterisk-in-types"
     else if numColumns == numTypes then
-      let mut ocs : List (Bytes × Loc) := []
-      for (c, t) in s.cols.zip s.types do
-        let l ← outputMember t.ty t.member
-        ocs := ocs ++ [newOutputColumn c.tableName c.column l]
-      addExpr (.output ocs)
-    else throw "mismatched-columns-types"
+      match outPairwise st (s.cols.zip s.types) [] with
+      | .error e => .error e
+      | .ok (ocs, st) => .ok (st.add (.output ocs))
+    else .error "mismatched-columns-types"
+
+/-- the node loop of BindTypes -/
+def bindSegs : TEB → List OSeg → Except String TEB
+  | st, [] => .ok st
+  | st, s :: rest =>
+    match bindSeg st s with
+    | .error e => .error e
+    | .ok st => bindSegs st rest
 
 /-- `ParsedExpr.BindTypes` -/
 def bindTypes (C : Cls) (tt : TypeTable) (segs : List OSeg) (samples : List (Option Nat)) : Except String (List TExpr) :=
   match generateArgInfo C tt samples [] with
   | .error e => .error e
   | .ok infos =>
-    match (segs.forM bindSeg).run { argInfos := infos } with
+    match bindSegs { argInfos := infos } segs with
     | .error e => .error e
-    | .ok (_, st) =>
+    | .ok st =>
       -- checkAllArgsUsed
       if infos.all (fun p => st.argUsed.contains p.1) then .ok st.exprs else .error "sample-not-used"
 
